@@ -41,6 +41,9 @@ type Solver struct {
 	ndefs     int
 	Log       io.Writer
 	LastError string
+	aux       *Solver // clean context for model queries (get-value is linear in the number of definitions)
+	ModelQ    int
+	scopes    [][]int // ids defined per open scope (popped definitions must be re-emitted)
 	lib       *libCtx
 	pending   []string // output lines produced by the in-process solver
 }
@@ -88,6 +91,7 @@ func (s *Solver) start() error {
 	s.cmd, s.in, s.out = cmd, in, bufio.NewReaderSize(out, 1<<16)
 	s.defined = map[int]bool{}
 	s.ndefs = 0
+	s.scopes = nil
 	s.send("(set-option :produce-models true)\n")
 	if s.Kind == "cvc5" {
 		s.send("(set-logic QF_BV)\n")
@@ -116,7 +120,132 @@ func (s *Solver) send(str string) {
 	io.WriteString(s.in, str)
 }
 
+// Push opens a solver scope; Assert adds a permanent (until popped) assertion in it.
+func (s *Solver) Push() {
+	s.send("(push 1)\n")
+	s.scopes = append(s.scopes, nil)
+}
+
+func (s *Solver) Pop(n int) {
+	if n <= 0 {
+		return
+	}
+	if n > len(s.scopes) {
+		n = len(s.scopes)
+	}
+	s.send(fmt.Sprintf("(pop %d)\n", n))
+	for i := 0; i < n; i++ {
+		top := s.scopes[len(s.scopes)-1]
+		for _, id := range top {
+			delete(s.defined, id)
+		}
+		s.scopes = s.scopes[:len(s.scopes)-1]
+	}
+}
+
+func (s *Solver) Depth() int { return len(s.scopes) }
+
+// emit writes the definitions of t, recording them in the current scope.
+func (s *Solver) emit(t *term.Term, sb *strings.Builder) string {
+	if len(s.scopes) == 0 {
+		return term.Emit(t, s.defined, sb)
+	}
+	before := len(s.defined)
+	_ = before
+	rec := &s.scopes[len(s.scopes)-1]
+	return term.EmitRec(t, s.defined, sb, rec)
+}
+
+func (s *Solver) Assert(t *term.Term) {
+	var sb strings.Builder
+	r := s.emit(t, &sb)
+	sb.WriteString("(assert " + r + ")\n")
+	s.send(sb.String())
+}
+
+// CheckAssuming asks whether the current assertions plus lit (nil: none) are satisfiable.
+func (s *Solver) CheckAssuming(lit *term.Term) Result {
+	var sb strings.Builder
+	start := time.Now()
+	if lit == nil {
+		sb.WriteString("(check-sat)\n(echo \"@@\")\n")
+	} else {
+		if lit.Op == term.OConst {
+			if lit.Val == 0 {
+				return Unsat
+			}
+			sb.WriteString("(check-sat)\n(echo \"@@\")\n")
+		} else {
+			r := s.emit(lit, &sb)
+			sb.WriteString("(check-sat-assuming (" + r + "))\n(echo \"@@\")\n")
+		}
+	}
+	s.send(sb.String())
+	res := s.readResult()
+	s.Time += time.Since(start)
+	s.Queries++
+	switch res {
+	case Sat:
+		s.SatN++
+	case Unsat:
+		s.UnsatN++
+	default:
+		s.UnknownN++
+	}
+	return res
+}
+
+// Model solves the conjunction of lits in a clean auxiliary context and returns values for vars.
+func (s *Solver) Model(lits []*term.Term, vars []*term.Term) (map[*term.Term]uint64, Result) {
+	if s.aux == nil {
+		a, err := New(s.Kind, s.TimeoutMs)
+		if err != nil {
+			return nil, Unknown
+		}
+		s.aux = a
+	}
+	a := s.aux
+	start := time.Now()
+	defer func() { s.Time += time.Since(start); s.ModelQ++ }()
+	a.defined = map[int]bool{}
+	var sb strings.Builder
+	sb.WriteString("(push 1)\n")
+	for _, v := range vars {
+		term.Emit(v, a.defined, &sb)
+	}
+	for _, l := range lits {
+		if l.Op == term.OConst {
+			if l.Val == 0 {
+				return nil, Unsat
+			}
+			continue
+		}
+		r := term.Emit(l, a.defined, &sb)
+		sb.WriteString("(assert " + r + ")\n")
+	}
+	sb.WriteString("(check-sat)\n(echo \"@@\")\n")
+	a.send(sb.String())
+	res := a.readResult()
+	var vals map[*term.Term]uint64
+	if res == Sat {
+		var err error
+		vals, err = a.Values(vars)
+		if err != nil {
+			res = Unknown
+		}
+	}
+	a.send("(pop 1)\n")
+	a.defined = map[int]bool{}
+	s.Errors += a.Errors
+	a.Errors = 0
+	return vals, res
+}
+
 func (s *Solver) Close() {
+	if s.aux != nil {
+		s.aux.Close()
+		s.aux = nil
+	}
 	if s.lib != nil {
 		s.lib.close()
 		s.lib = nil
